@@ -22,13 +22,24 @@ MAX_HEAP = 10
 
 
 class HObj:
-    __slots__ = ("name", "obj", "kind", "origin")
+    __slots__ = ("name", "obj", "kind", "origin", "group")
 
-    def __init__(self, name, obj, kind, origin):
+    def __init__(self, name, obj, kind, origin, group):
         self.name = name
         self.obj = obj
-        self.kind = kind          # 'signal' | 'arg'
+        self.kind = kind          # 'signal' | 'arg' | 'reader'
         self.origin = origin
+        self.group = group        # alias group: objects that may legitimately share memory
+
+
+# Reference model of aliasing: the operations whose RESULT may share memory with their input
+# (documented view semantics: slices, like(), conversions that are no-ops, compute() on NumPy
+# data, a constructor given the caller's buffer). Every other operation must return fresh
+# memory, as its NumPy counterpart does (np.concatenate, np.stack, ufuncs, FFTs always copy).
+# An in-place operator naming signal T therefore may change exactly the objects of T's alias
+# group; a change that reaches another group through shared memory was not sanctioned.
+ALIAS_OK = {"tslice", "fslice", "like", "fast_len", "snippet", "polconv", "container",
+            "compute_sync", "ctor", "time_shift", "observe"}
 
 
 def split_snap(o):
@@ -300,7 +311,7 @@ def all_ops():
     return d
 
 
-C_WEIGHTS = {"observe": 2, "contains": 2, "inplace": 2, "istft": 3, "stft": 2,
+C_WEIGHTS = {"observe": 2, "contains": 2, "inplace": 4, "istft": 3, "stft": 2,
              "time_shift": 3, "freq_shift": 3, "snippet": 2, "coherent_dd": 3,
              "incoherent_dd": 2, "concat": 3, "polconv": 3, "binary": 3, "ctor": 2}
 
@@ -314,10 +325,12 @@ class Heap:
         self.base = {}       # name -> (meta, data)
         self.counter = 0
 
-    def add(self, obj, kind, origin):
+    def add(self, obj, kind, origin, group=None):
         name = f"h{self.counter}"
         self.counter += 1
-        h = HObj(name, obj, kind, origin)
+        if group is None:
+            group = f"g{self.counter}"
+        h = HObj(name, obj, kind, origin, group)
         self.objs.append(h)
         self.base[name] = split_snap(obj)
         return h
@@ -345,11 +358,18 @@ class Heap:
                 self.ctx.violate("input-mutated", f"{opname}:{h.kind}.metadata",
                                  f"{h.name} ({h.origin}) {phase}: {d}")
             if data1 != data0:
-                if aliased:
+                if aliased and h.group == sanctioned_target.group:
                     self.ctx.probe("sanctioned_write_through_alias"
                                    if h is not sanctioned_target else "sanctioned_write")
                     self.base[h.name] = (meta1, data1)
                     continue
+                if aliased:
+                    d = snapshot.describe_diff(data0, data1)
+                    self.ctx.violate(
+                        "input-mutated", f"{opname}:write-through-unexpected-alias",
+                        f"{h.name} ({h.origin}) changed through an in-place operation naming "
+                        f"{sanctioned_target.name} ({sanctioned_target.origin}): the two share memory "
+                        f"although no view-returning operation connects them {phase}: {d}")
                 d = snapshot.describe_diff(data0, data1)
                 self.ctx.violate("input-mutated", f"{opname}:{h.kind}.data",
                                  f"{h.name} ({h.origin}) {phase}: {d}")
@@ -533,7 +553,9 @@ def _run(ctx):
         for k, v in args.items():
             if isinstance(v, (int, float, complex, str, bool, type(None))):
                 continue
-            arg_h.append(heap.add(v, "arg", f"argument {k} of step {s} {opname}"))
+            shares = bool(roots(v) & roots(z))
+            arg_h.append(heap.add(v, "arg", f"argument {k} of step {s} {opname}",
+                                  group=target.group if shares else None))
             if isinstance(v, list):
                 ctx.probe("list_argument")
         if isinstance(z.data, np.ndarray) and z.data.base is not None and target.origin.startswith("result"):
@@ -588,7 +610,8 @@ def _run(ctx):
         # ---- result joins the heap ----
         if outcome == "ok" and isinstance(val, pb.Signal) and val is not z:
             origin = f"result of step {s} {opname}({target.name})"
-            h = heap.add(val, "signal", origin)
+            h = heap.add(val, "signal", origin,
+                         group=target.group if opname in ALIAS_OK else None)
             ctx.log("result", h.name, type(val).__name__, val.shape, str(val.dtype),
                     core.hbytes(repr(snapshot.strip_ids(heap.base[h.name])).encode()))
             if isinstance(val.data, np.ndarray) and isinstance(z.data, np.ndarray) \
